@@ -136,10 +136,11 @@ Inductive lock := NoLock | SharedLock | ExclLock.
 Record pstate := mk_ps {
   ph : nat -> phase;            (* per intranode rank *)
   lk : nat -> lock;
-  arrived : nat -> nat;         (* barriers entered so far *)
-  left_ : nat -> nat;           (* barriers left so far *)
+  arrived : nat -> nat;         (* barriers (write_end calls) entered so far *)
+  left_ : nat -> nat;           (* barriers left so far = write_end calls returned from *)
   mem : Z;                      (* content of the shared array (abstract) *)
-  conflict : bool               (* some exclusive lock was taken while another rank held a lock on the window *)
+  conflict : bool;              (* some exclusive lock was taken while another rank held a lock on the window *)
+  wround : nat                  (* the writer's round in which `mem` was stored last (0: never); book-keeping only *)
 }.
 Definition upd {B} (f : nat -> B) (i : nat) (v : B) : nat -> B := fun j => if j =? i then v else f j.
 
@@ -160,32 +161,47 @@ Definition pstep (n : nat) (s : pstate) (e : event) : option pstate :=
     if (i <? n) && match ph s i with Reading => true | _ => false end then
       if i =? 0
       then Some (mk_ps (upd (ph s) i Writer) (upd (lk s) i ExclLock) (arrived s) (left_ s) (mem s)
-                       (conflict s || others_hold n (lk s) i))
-      else Some (mk_ps (upd (ph s) i NonWriter) (upd (lk s) i NoLock) (arrived s) (left_ s) (mem s) (conflict s))
+                       (conflict s || others_hold n (lk s) i) (wround s))
+      else Some (mk_ps (upd (ph s) i NonWriter) (upd (lk s) i NoLock) (arrived s) (left_ s) (mem s) (conflict s) (wround s))
     else None
   | WR i v =>
     if (i <? n) && match ph s i with Writer => true | _ => false end
-    then Some (mk_ps (ph s) (lk s) (arrived s) (left_ s) v (conflict s)) else None
+    then Some (mk_ps (ph s) (lk s) (arrived s) (left_ s) v (conflict s) (S (arrived s 0))) else None
   | WE_arrive i =>
     if (i <? n) && match ph s i with Writer | NonWriter => true | _ => false end
     then Some (mk_ps (upd (ph s) i InBarrier) (upd (lk s) i NoLock) (upd (arrived s) i (S (arrived s i))) (left_ s)
-                     (mem s) (conflict s))
+                     (mem s) (conflict s) (wround s))
     else None
   | WE_leave i =>
     if (i <? n) && match ph s i with InBarrier => true | _ => false end
        && forallb (fun j => arrived s i <=? arrived s j) (seq 0 n)
     then Some (mk_ps (upd (ph s) i Reading) (upd (lk s) i SharedLock) (arrived s) (upd (left_ s) i (S (left_ s i)))
-                     (mem s) (conflict s))
+                     (mem s) (conflict s) (wround s))
     else None
   end.
 
 Definition pinit (v : Z) : pstate :=
-  mk_ps (fun _ => Reading) (fun _ => SharedLock) (fun _ => 0) (fun _ => 0) v false.
+  mk_ps (fun _ => Reading) (fun _ => SharedLock) (fun _ => 0) (fun _ => 0) v false 0.
 
 Fixpoint prun (n : nat) (s : pstate) (es : list event) : option pstate :=
   match es with
   | [] => Some s
   | e :: t => match pstep n s e with Some s' => prun n s' t | None => None end
+  end.
+
+(* the calling convention under which the rounds do not overlap: the writer passes write_start only after every rank
+   of the node has returned from the previous write_end (e.g. the callers synchronise between their last read and
+   the next write_start).  Everything else is as above. *)
+Definition all_returned (n : nat) (s : pstate) : bool := forallb (fun j => left_ s j =? arrived s 0) (seq 0 n).
+Definition pstep_sync (n : nat) (s : pstate) (e : event) : option pstate :=
+  match e with
+  | WS 0 => if all_returned n s then pstep n s e else None
+  | _ => pstep n s e
+  end.
+Fixpoint prun_sync (n : nat) (s : pstate) (es : list event) : option pstate :=
+  match es with
+  | [] => Some s
+  | e :: t => match pstep_sync n s e with Some s' => prun_sync n s' t | None => None end
   end.
 
 (* ---- per-rank sequence of MPI calls (compared with the trace of the real code) ---------------------------- *)
